@@ -4,6 +4,7 @@ import (
 	"fmt"
 	"os"
 	"path/filepath"
+	"strings"
 
 	"filippo.io/age/zverif/cli"
 	"filippo.io/age/zverif/keys"
@@ -36,98 +37,178 @@ func cliStage(r *mon.Run) {
 	}
 	defer os.RemoveAll(work)
 	os.WriteFile(filepath.Join(work, "in"), []byte("c11 cli plaintext"), 0o600)
-	x := keys.NewX("X1").PublicStr
-	plugin := func(name string, sc *plug.Script) string {
+	xk := keys.NewX("X1")
+	// a recipient of the command line: what it is and the string forms it has
+	type rcp struct {
+		kind     string // native, lbl (postquantum), ab (alpha beta), ba (beta alpha), bad, missing
+		pub, sec string // recipient string; identity-file line usable with -e -i ("" = none)
+	}
+	plugin := func(name string, sc *plug.Script) rcp {
 		env.Install(name)
 		env.SetScript(name, sc)
-		return refage.Bech32Encode("age1"+name, []byte{1, 2, 3})
+		return rcp{kind: name, pub: refage.Bech32Encode("age1"+name, []byte{1, 2, 3}),
+			sec: refage.Bech32Encode("AGE-PLUGIN-"+strings.ToUpper(name)+"-", []byte{1, 2, 3})}
 	}
-	labelled := func() string {
-		return plugin("lbl", &plug.Script{Steps: []plug.Step{
-			{Send: plug.Stanza("recipient-stanza", []string{"0", "fake"}, []byte("0123456789abcdef0123456789abcdef"))},
-			{Send: plug.Stanza("labels", []string{"postquantum"}, nil)},
-			{Send: plug.Stanza("done", nil, nil), NoReply: true}}})
+	withLabels := func(name string, labels ...string) func() rcp {
+		return func() rcp {
+			return plugin(name, &plug.Script{Steps: []plug.Step{
+				{Send: plug.Stanza("recipient-stanza", []string{"0", "fake"}, []byte("0123456789abcdef0123456789abcdef"))},
+				{Send: plug.Stanza("labels", labels, nil)},
+				{Send: plug.Stanza("done", nil, nil), NoReply: true}}})
+		}
 	}
-	failing := func() string {
+	native := func() rcp { return rcp{kind: "native", pub: xk.PublicStr, sec: xk.SecretStr} }
+	labelled := withLabels("lbl", "postquantum")
+	ab := withLabels("ab", "alpha", "beta")
+	ba := withLabels("ba", "beta", "alpha")
+	failing := func() rcp {
 		return plugin("bad", &plug.Script{Steps: []plug.Step{
 			{Send: plug.Stanza("error", []string{"internal"}, []byte("cannot wrap"))},
 			{Send: plug.Stanza("done", nil, nil), NoReply: true}}})
 	}
-	missing := refage.Bech32Encode("age1notinstalled", []byte{9})
+	missing := func() rcp { return rcp{kind: "missing", pub: refage.Bech32Encode("age1notinstalled", []byte{9})} }
 	type tc struct {
 		name string
-		recs func() []string
+		recs []func() rcp
 		ok   bool
 	}
+	L := func(f ...func() rcp) []func() rcp { return f }
 	cases := []tc{
-		{"control:native-only", func() []string { return []string{x} }, true},
-		{"control:labelled-plugin-alone", func() []string { return []string{labelled()} }, true},
-		{"label-mismatch:native,plugin", func() []string { return []string{x, labelled()} }, false},
-		{"label-mismatch:plugin,native", func() []string { return []string{labelled(), x} }, false},
-		{"label-mismatch:native,plugin,native", func() []string { return []string{x, labelled(), x} }, false},
-		{"wrap-error:plugin-alone", func() []string { return []string{failing()} }, false},
-		{"wrap-error:native,plugin", func() []string { return []string{x, failing()} }, false},
-		{"wrap-error:plugin,native", func() []string { return []string{failing(), x} }, false},
-		{"plugin-not-installed:alone", func() []string { return []string{missing} }, false},
-		{"plugin-not-installed:native,missing", func() []string { return []string{x, missing} }, false},
+		{"control:native-only", L(native), true},
+		{"control:labelled-plugin-alone", L(labelled), true},
+		{"control:equal-label-sets-in-different-order", L(ab, ba), true},
+		{"control:equal-label-sets-in-different-order-reversed", L(ba, ab), true},
+		{"label-mismatch:native,plugin", L(native, labelled), false},
+		{"label-mismatch:plugin,native", L(labelled, native), false},
+		{"label-mismatch:native,plugin,native", L(native, labelled, native), false},
+		{"label-mismatch:native,native,plugin", L(native, native, labelled), false},
+		{"label-mismatch:plugin,other-plugin", L(labelled, ab), false},
+		{"label-mismatch:ab,ba,native", L(ab, ba, native), false},
+		{"wrap-error:plugin-alone", L(failing), false},
+		{"wrap-error:native,plugin", L(native, failing), false},
+		{"wrap-error:plugin,native", L(failing, native), false},
+		{"plugin-not-installed:alone", L(missing), false},
+		{"plugin-not-installed:native,missing", L(native, missing), false},
+	}
+	// the route by which each recipient reaches the tool: -r STRING, its own -R
+	// file, one -R file shared by all, -R for plugins and -r for the rest (and
+	// the reverse), or an identity file given with -e -i
+	routes := []string{"r", "R-each", "R-shared", "plugins-R", "natives-R", "i"}
+	nfile := 0
+	build := func(route string, recs []rcp) (argv []string, ok bool) {
+		writeFile := func(lines ...string) string {
+			nfile++
+			p := filepath.Join(work, fmt.Sprintf("keys%d.txt", nfile))
+			os.WriteFile(p, []byte("# c11\n"+strings.Join(lines, "\n")+"\n"), 0o600)
+			return p
+		}
+		if route == "R-shared" {
+			var lines []string
+			for _, rc := range recs {
+				lines = append(lines, rc.pub)
+			}
+			return []string{"-R", writeFile(lines...)}, true
+		}
+		for _, rc := range recs {
+			via := route
+			switch route {
+			case "plugins-R":
+				via = "r"
+				if rc.kind != "native" {
+					via = "R-each"
+				}
+			case "natives-R":
+				via = "R-each"
+				if rc.kind != "native" {
+					via = "r"
+				}
+			}
+			switch via {
+			case "r":
+				argv = append(argv, "-r", rc.pub)
+			case "R-each":
+				argv = append(argv, "-R", writeFile(rc.pub))
+			case "i":
+				if rc.sec == "" {
+					return nil, false
+				}
+				argv = append(argv, "-i", writeFile(rc.sec))
+			}
+		}
+		if route == "i" {
+			argv = append([]string{"-e"}, argv...)
+		}
+		return argv, true
 	}
 	path := "PATH=" + os.Getenv("PATH")
 	for _, c := range cases {
-		for _, armor := range []bool{false, true} {
-			for _, outMode := range []string{"-o", "stdout", "-o-existing"} {
-				recs := c.recs()
-				argv := []string{age}
-				for _, rc := range recs {
-					argv = append(argv, "-r", rc)
-				}
-				if armor {
-					argv = append(argv, "-a")
-				}
-				outPath := filepath.Join(work, "out.age")
-				os.Remove(outPath)
-				if outMode == "-o-existing" {
-					os.WriteFile(outPath, []byte("PRE-EXISTING\n"), 0o644)
-				}
-				if outMode != "stdout" {
-					argv = append(argv, "-o", outPath)
-				}
-				argv = append(argv, filepath.Join(work, "in"))
-				res := cli.Run(&cli.Cmd{Argv: argv, Dir: work, Env: []string{path, "FAKEPLUGIN_DIR=" + env.Dir}})
-				name := fmt.Sprintf("cli %s armor=%v out=%s", c.name, armor, outMode)
-				r.Eval(1)
-				r.Distinct(name)
-				r.Count("cli_stage_runs", 1)
-				if res.Err != nil {
-					r.Inconclusive("%s: driver error %v", name, res.Err)
-					continue
-				}
-				if c.ok {
-					if res.Exit != 0 {
-						r.Inconclusive("%s: control failed: %s", name, res)
+		for ri, route := range routes {
+			for _, armor := range []bool{false, true} {
+				for oi, outMode := range []string{"-o", "stdout", "-o-existing"} {
+					if ri > 0 && oi != (ri+len(c.recs))%3 {
+						continue // the other routes take one destination kind each
 					}
-					continue
-				}
-				replay := map[string]any{"case": name, "argv": argv}
-				if res.Exit == 0 {
-					r.Violate("cli-accepted:"+c.name, name+": the tool encrypted to a recipient list it must refuse", replay)
-					continue
-				}
-				got, statErr := os.ReadFile(outPath)
-				switch outMode {
-				case "stdout":
-					if len(res.Stdout) != 0 {
-						r.Violate(fmt.Sprintf("cli-bytes-on-refusal:stdout:armor=%v", armor), fmt.Sprintf("%s: refused (exit %d) but %d bytes reached standard output: %q", name, res.Exit, len(res.Stdout), mon.Trunc(res.Stdout, 80)), replay)
+					var recs []rcp
+					for _, f := range c.recs {
+						recs = append(recs, f())
 					}
-				case "-o":
-					if statErr == nil {
-						r.Violate(fmt.Sprintf("cli-bytes-on-refusal:-o:armor=%v", armor), fmt.Sprintf("%s: refused (exit %d) but the -o file was created with %d bytes: %q", name, res.Exit, len(got), mon.Trunc(got, 80)), replay)
+					rargv, feasible := build(route, recs)
+					if !feasible {
+						continue
 					}
-				case "-o-existing":
-					if statErr != nil || string(got) != "PRE-EXISTING\n" {
-						r.Violate(fmt.Sprintf("cli-bytes-on-refusal:-o-existing:armor=%v", armor), fmt.Sprintf("%s: refused (exit %d) but the existing -o file was changed to %q", name, res.Exit, mon.Trunc(got, 80)), replay)
+					argv := append([]string{age}, rargv...)
+					if armor {
+						argv = append(argv, "-a")
 					}
+					outPath := filepath.Join(work, "out.age")
+					os.Remove(outPath)
+					if outMode == "-o-existing" {
+						os.WriteFile(outPath, []byte("PRE-EXISTING\n"), 0o644)
+					}
+					if outMode != "stdout" {
+						argv = append(argv, "-o", outPath)
+					}
+					argv = append(argv, filepath.Join(work, "in"))
+					res := cli.Run(&cli.Cmd{Argv: argv, Dir: work, Env: []string{path, "FAKEPLUGIN_DIR=" + env.Dir}})
+					name := fmt.Sprintf("cli %s route=%s armor=%v out=%s", c.name, route, armor, outMode)
+					r.Tab("cli_case_x_route", c.name+"|"+route)
+					r.Eval(1)
+					r.Distinct(name)
+					r.Count("cli_stage_runs", 1)
+					if res.Err != nil {
+						r.Inconclusive("%s: driver error %v", name, res.Err)
+						continue
+					}
+					replay := map[string]any{"case": name, "argv": argv}
+					if c.ok {
+						if res.Exit != 0 && len(recs) > 1 {
+							r.Violate("cli-refused-equal-label-sets:"+c.name+":route="+route, fmt.Sprintf("%s: every recipient declares the same label set but the tool refused: %s", name, res), replay)
+						} else if res.Exit != 0 {
+							r.Inconclusive("%s: control failed: %s", name, res)
+						}
+						continue
+					}
+					if res.Exit == 0 {
+						r.Violate("cli-accepted:"+c.name+":route="+route, name+": the tool encrypted to a recipient list it must refuse", replay)
+						continue
+					}
+					got, statErr := os.ReadFile(outPath)
+					switch outMode {
+					case "stdout":
+						if len(res.Stdout) != 0 {
+							r.Violate(fmt.Sprintf("cli-bytes-on-refusal:stdout:armor=%v", armor), fmt.Sprintf("%s: refused (exit %d) but %d bytes reached standard output: %q", name, res.Exit, len(res.Stdout), mon.Trunc(res.Stdout, 80)), replay)
+						}
+					case "-o":
+						if statErr == nil {
+							r.Violate(fmt.Sprintf("cli-bytes-on-refusal:-o:armor=%v", armor), fmt.Sprintf("%s: refused (exit %d) but the -o file was created with %d bytes: %q", name, res.Exit, len(got), mon.Trunc(got, 80)), replay)
+						}
+					case "-o-existing":
+						if statErr != nil || string(got) != "PRE-EXISTING\n" {
+							r.Violate(fmt.Sprintf("cli-bytes-on-refusal:-o-existing:armor=%v", armor), fmt.Sprintf("%s: refused (exit %d) but the existing -o file was changed to %q", name, res.Exit, mon.Trunc(got, 80)), replay)
+						}
+					}
+					r.Count("cli_refusals_with_untouched_destination_checked", 1)
 				}
-				r.Count("cli_refusals_with_untouched_destination_checked", 1)
 			}
 		}
 	}
